@@ -215,7 +215,164 @@ func skeletons(repo string) []skel {
 	}
 	out = append(out, runGuards(repo)...)
 	out = append(out, pkgState(repo)...)
+	out = append(out, frameFacts(repo)...)
+	out = append(out, executorFacts(repo)...)
 	sort.Slice(out, func(i, j int) bool { return out[i].name < out[j].name })
+	return out
+}
+
+// executor/contract_executor.go: the gas-limit constants and every condition / assignment of Execute and
+// IntrinsicGas that mentions the gas limit (what bounds the gas evm.Call / Create are given).
+func executorFacts(repo string) []skel {
+	fset := token.NewFileSet()
+	file, err := parser.ParseFile(fset, filepath.Join(repo, "src", "executor", "contract_executor.go"), nil, 0)
+	if err != nil {
+		panic(err)
+	}
+	show := func(n ast.Node) string {
+		var sb strings.Builder
+		printer.Fprint(&sb, fset, n)
+		return strings.Join(strings.Fields(sb.String()), " ")
+	}
+	consts := skel{name: "executor.gasConstants"}
+	for _, d := range file.Decls {
+		if gd, ok := d.(*ast.GenDecl); ok && gd.Tok == token.CONST {
+			for _, sp := range gd.Specs {
+				vs := sp.(*ast.ValueSpec)
+				for i, n := range vs.Names {
+					if strings.Contains(n.Name, "GasLimit") && i < len(vs.Values) {
+						consts.items = append(consts.items, n.Name+"="+show(vs.Values[i]))
+					}
+				}
+			}
+		}
+	}
+	out := []skel{consts}
+	for _, d := range file.Decls {
+		fd, ok := d.(*ast.FuncDecl)
+		if !ok || fd.Body == nil || (fd.Name.Name != "Execute" && fd.Name.Name != "IntrinsicGas") {
+			continue
+		}
+		sk := skel{name: "executor." + fd.Name.Name}
+		ast.Inspect(fd.Body, func(n ast.Node) bool {
+			switch v := n.(type) {
+			case *ast.IfStmt:
+				c := show(v.Cond)
+				if strings.Contains(c, "gasLimit") || strings.Contains(c, "GasLimit") || strings.Contains(c, "IsProposal") || fd.Name.Name == "IntrinsicGas" {
+					sk.items = append(sk.items, "if "+c)
+				}
+			case *ast.AssignStmt:
+				t := show(v)
+				if strings.Contains(t, "asLimit") || (fd.Name.Name == "IntrinsicGas" && strings.Contains(t, "gas")) {
+					sk.items = append(sk.items, t)
+				}
+			case *ast.ReturnStmt:
+				if fd.Name.Name == "IntrinsicGas" {
+					sk.items = append(sk.items, show(v))
+				}
+			}
+			return true
+		})
+		out = append(out, sk)
+	}
+	return out
+}
+
+// How frames are built and how jump destinations are validated (evm.go, contract.go):
+//   frame.<Func>      : the NewContract / SetCallCode / SetCodeOptionalHash / AsDelegate calls of evm.Call, CallCode,
+//                       DelegateCall, StaticCall, AuthCall, create, printed with their arguments (which address is
+//                       `self`, which account's code hash keys the shared JUMPDEST-analysis cache, which code runs);
+//   contract.<Func>   : every `if` condition and `return` expression of validJumpdest, isCode, GetOp, GetByte, UseGas,
+//                       with the receiver renamed to $c (comparison operators, bounds, cache key).
+func frameFacts(repo string) []skel {
+	fset := token.NewFileSet()
+	var out []skel
+	show := func(n ast.Node, recv string) string {
+		var sb strings.Builder
+		printer.Fprint(&sb, fset, n)
+		t := strings.Join(strings.Fields(sb.String()), " ")
+		if recv != "" {
+			t = regexp.MustCompile(`\b`+regexp.QuoteMeta(recv)+`\.`).ReplaceAllString(t, "$$c.")
+		}
+		return strings.ReplaceAll(t, "evm.StateDB.", "")
+	}
+	evmFile, err := parser.ParseFile(fset, filepath.Join(repo, "src", "vm", "evm.go"), nil, 0)
+	if err != nil {
+		panic(err)
+	}
+	want := map[string]bool{"Call": true, "CallCode": true, "DelegateCall": true, "StaticCall": true, "AuthCall": true, "create": true}
+	for _, d := range evmFile.Decls {
+		fd, ok := d.(*ast.FuncDecl)
+		if !ok || fd.Body == nil || !want[fd.Name.Name] {
+			continue
+		}
+		sk := skel{name: "frame." + fd.Name.Name}
+		ast.Inspect(fd.Body, func(n ast.Node) bool {
+			ce, ok := n.(*ast.CallExpr)
+			if !ok {
+				return true
+			}
+			fn := exprName(ce.Fun)
+			if fn == "NewContract" || strings.HasSuffix(fn, ".SetCallCode") || strings.HasSuffix(fn, ".SetCodeOptionalHash") || strings.HasSuffix(fn, ".AsDelegate") || fn == "run" {
+				if strings.HasSuffix(fn, ".AsDelegate") {
+					sk.items = append(sk.items, "AsDelegate")
+				} else {
+					sk.items = append(sk.items, show(ce, ""))
+				}
+			}
+			return true
+		})
+		out = append(out, sk)
+	}
+	cFile, err := parser.ParseFile(fset, filepath.Join(repo, "src", "vm", "contract.go"), nil, 0)
+	if err != nil {
+		panic(err)
+	}
+	wantC := map[string]bool{"validJumpdest": true, "isCode": true, "GetOp": true, "GetByte": true, "UseGas": true, "AsDelegate": true}
+	for _, d := range cFile.Decls {
+		fd, ok := d.(*ast.FuncDecl)
+		if !ok || fd.Body == nil || !wantC[fd.Name.Name] || fd.Recv == nil || len(fd.Recv.List[0].Names) == 0 {
+			continue
+		}
+		recv := fd.Recv.List[0].Names[0].Name
+		sk := skel{name: "contract." + fd.Name.Name}
+		ast.Inspect(fd.Body, func(n ast.Node) bool {
+			switch v := n.(type) {
+			case *ast.IfStmt:
+				sk.items = append(sk.items, "if "+show(v.Cond, recv))
+			case *ast.ReturnStmt:
+				sk.items = append(sk.items, show(v, recv))
+			case *ast.AssignStmt:
+				sk.items = append(sk.items, show(v, recv))
+			}
+			return true
+		})
+		out = append(out, sk)
+	}
+	aFile, err := parser.ParseFile(fset, filepath.Join(repo, "src", "vm", "analysis.go"), nil, 0)
+	if err == nil {
+		for _, d := range aFile.Decls {
+			fd, ok := d.(*ast.FuncDecl)
+			if !ok || fd.Body == nil || fd.Name.Name != "codeBitmap" {
+				continue
+			}
+			sk := skel{name: "analysis.codeBitmap"}
+			ast.Inspect(fd.Body, func(n ast.Node) bool {
+				switch v := n.(type) {
+				case *ast.IfStmt:
+					sk.items = append(sk.items, "if "+show(v.Cond, ""))
+				case *ast.ForStmt:
+					if v.Cond != nil {
+						sk.items = append(sk.items, "for "+show(v.Cond, ""))
+					}
+				case *ast.AssignStmt:
+					sk.items = append(sk.items, show(v, ""))
+				}
+				return true
+			})
+			out = append(out, sk)
+		}
+	}
 	return out
 }
 
